@@ -47,6 +47,7 @@ where
     interfaces: FnvHashMap<(Atom, SyntaxContext), TsInterfaceDecl>,
     type_aliases: FnvHashMap<(Atom, SyntaxContext), TsType>,
     type_decls_collected: bool,
+    type_resolution_depth: std::cell::Cell<usize>,
 
     unresolved_mark: Mark,
     comments: Option<C>,
@@ -75,6 +76,7 @@ where
             interfaces: Default::default(),
             type_aliases: Default::default(),
             type_decls_collected: false,
+            type_resolution_depth: Default::default(),
 
             unresolved_mark,
             comments,
